@@ -63,6 +63,7 @@ type OpSpec struct {
 	Alias    map[string]string
 	Track    []string // further event patterns that are part of a callback's observable behaviour (collector calls...)
 	Otherwise [][2]string // guard, callee: declared constructor paths that return another observable instead
+	Ctor     string      // the observable constructor the operator must use (its concurrency mode is part of its meaning: Serialize)
 }
 
 var onRe = regexp.MustCompile(`^([A-Za-z@_0-9.]+)\s*\(([^)]*)\)\s*(?:when\s+(.*?))?\s*:\s*(.*)$`)
@@ -165,6 +166,8 @@ func parseOpSpec(b *Block) (*OpSpec, error) {
 				return nil, fmt.Errorf("%s:%d: otherwise <guard> : returns <Callee>()", shortFile(c.File), c.Line)
 			}
 			sp.Otherwise = append(sp.Otherwise, [2]string{strings.TrimSpace(kv[0]), strings.TrimSpace(strings.TrimPrefix(strings.TrimSpace(kv[1]), "returns "))})
+		case "constructor":
+			sp.Ctor = strings.TrimSpace(c.Text)
 		case "props", "note", "teardown", "mode", "userfn", "inline":
 		default:
 			return nil, fmt.Errorf("%s:%d: unknown operator clause %q", shortFile(c.File), c.Line, c.Kind)
@@ -1291,10 +1294,14 @@ func (mr *machineRun) runConstruct() {
 		mr.u.Errs = append(mr.u.Errs, fmt.Sprintf("%s: the observable constructor call was not reached from the operator's entry", mr.sp.Name))
 	}
 	only := map[string][]Obl{}
-	for _, n := range []string{"requires-established", "every-path-builds-the-operator"} {
+	for _, n := range []string{"requires-established", "every-path-builds-the-operator", "constructor"} {
 		if len(byName[n]) > 0 {
 			only[n] = byName[n]
 		}
+	}
+	if mr.sp.Ctor != "" {
+		only["constructor"] = []Obl{{Name: "constructor", Goal: boolLit(mr.site.Ctor == mr.sp.Ctor), PC: nil}}
+		notes["constructor"] = "the observable is built with " + mr.sp.Ctor + " (found: " + mr.site.Ctor + ")"
 	}
 	if _, ok := only["every-path-builds-the-operator"]; !ok {
 		only["every-path-builds-the-operator"] = []Obl{{Name: "every-path-builds-the-operator", Goal: "true", PC: nil}}
